@@ -127,15 +127,17 @@ def log_hash(log):
 
 
 _ENGINE = None
+_STATUS_DIR = None
 
 
-def _init_worker(module_name):
-    global _ENGINE
+def _init_worker(module_name, status_dir=None):
+    global _ENGINE, _STATUS_DIR
 
     import importlib
 
     sys.setrecursionlimit(5000)
     _ENGINE = importlib.import_module(module_name).ENGINE
+    _STATUS_DIR = status_dir
 
 
 def _work(chunk):
@@ -144,12 +146,30 @@ def _work(chunk):
     out = Result()
     hashes = []
 
+    status = None
+
+    if _STATUS_DIR:
+        status = os.path.join(_STATUS_DIR, '{}.json'.format(os.getpid()))
+
     for item in chunk:
+        if status:
+            # What this worker is busy with: if it never comes back (a loop
+            # inside one C call is invisible to the step clock) the driver
+            # knows which item to blame.
+            with open(status, 'w') as fout:
+                json.dump({'item': item, 'since': time.time()}, fout)
+
         try:
             result = engine.run_item(item)
         except BaseException:
             return {'harness': 'item {}: {}'.format(
                 json.dumps(item)[:200], traceback.format_exc())}
+        finally:
+            if status:
+                try:
+                    os.unlink(status)
+                except OSError:
+                    pass
 
         merge_stats(out.stats, result.stats)
         out.violations.extend(result.violations[:3])
@@ -265,9 +285,103 @@ def replay_fresh(engine, path):
     return proc.returncode == 1 and b'REPRODUCED' in proc.stdout
 
 
+def _run_item_alone(engine, item, timeout):
+    """Runs one work item in a fresh interpreter.  Returns 'timeout',
+    'finished' or 'failed'."""
+
+    import tempfile
+
+    with tempfile.NamedTemporaryFile('w', suffix='.json',
+                                     delete=False) as fout:
+        json.dump(item, fout)
+        item_path = fout.name
+
+    check = os.path.join(VERIF, 'check')
+
+    try:
+        proc = subprocess.Popen([sys.executable, check, engine.property_id,
+                                 '--run-item', item_path],
+                                stdout=subprocess.DEVNULL,
+                                stderr=subprocess.DEVNULL)
+
+        try:
+            proc.wait(timeout)
+        except subprocess.TimeoutExpired:
+            proc.kill()
+            proc.wait()
+
+            return 'timeout'
+
+        return 'finished' if proc.returncode in (0, 1) else 'failed'
+    finally:
+        os.unlink(item_path)
+
+
+def confirm_wall_hang(engine, item, timeout):
+    """A worker did not come back from `item`.  If the item, run alone in a
+    fresh interpreter, does not finish within `timeout` seconds either, that
+    is a hang the step clock cannot see (a loop inside one C call): a
+    violation of class hang with signature kind=wall-clock.  Engines may
+    narrow the case down (engine.narrow_wall_hang)."""
+
+    if _run_item_alone(engine, item, timeout) != 'timeout':
+        return None
+
+    case = None
+
+    if item.get('kind') == 'random':
+        try:
+            case = engine.gen_case(item['seed'])
+        except Exception:
+            case = None
+
+    detail = {'item': item, 'wall_timeout_s': timeout,
+              'note': 'the operation did not return; the step clock did '
+                      'not fire, so the loop is inside a single C call'}
+
+    if case is not None and hasattr(engine, 'narrow_wall_hang'):
+        def hangs(candidate):
+            return _run_item_alone(
+                engine, {'kind': 'case', 'case': candidate},
+                max(20, timeout // 4)) == 'timeout'
+
+        try:
+            case = engine.narrow_wall_hang(case, hangs)
+        except Exception:
+            pass
+
+    return {'class': 'hang',
+            'signature': {'kind': 'wall-clock'},
+            'detail': detail,
+            'case': case if case is not None else {'item': item}}
+
+
 def do_replay(engine, path):
     with open(path) as fin:
         body = json.load(fin)
+
+    if (body.get('signature') or {}).get('kind') == 'wall-clock' \
+            and not os.environ.get('VSIM_INNER_REPLAY'):
+        # Replaying a hang in this process would hang it: do it in a child.
+        item = {'kind': 'case', 'case': body['case']}
+
+        if 'item' in body['case'] and len(body['case']) == 1:
+            item = body['case']['item']
+
+        outcome = _run_item_alone(engine, item, 90)
+
+        if outcome == 'timeout':
+            print('REPRODUCED property={} class=hang (no return within 90 s '
+                  'wall clock)'.format(engine.property_id))
+            print('VIOLATION property={} replay={}'.format(
+                engine.property_id, path))
+
+            return 1
+
+        print('NOT-REPRODUCED property={} ({})'.format(engine.property_id,
+                                                       outcome))
+
+        return 0
 
     result = engine.execute(body['case'])
     wanted = {'class': body['class'], 'signature': body.get('signature')}
@@ -303,6 +417,8 @@ def main(engine, argv=None):
     parser.add_argument('--tier', default=os.environ.get('VERIF_TIER',
                                                          'quick'))
     parser.add_argument('--replay')
+    parser.add_argument('--run-item',
+                        help='run one work item (JSON file) and exit')
     parser.add_argument('--runs', type=int)
     parser.add_argument('--workers', type=int,
                         default=int(os.environ.get('VERIF_WORKERS', '0')))
@@ -315,6 +431,17 @@ def main(engine, argv=None):
 
     if args.replay:
         return do_replay(engine, args.replay)
+
+    if args.run_item:
+        with open(args.run_item) as fin:
+            item = json.load(fin)
+
+        if item.get('kind') == 'case':
+            result = engine.execute(item['case'])
+        else:
+            result = engine.run_item(item)
+
+        return 1 if result.violations else 0
 
     tier = args.tier if args.tier in ('quick', 'thorough') else 'quick'
     conf = dict(engine.tiers[tier])
@@ -342,10 +469,16 @@ def main(engine, argv=None):
     context = multiprocessing.get_context(method)
     item_timeout = conf.get('chunk_timeout', 600)
 
+    import tempfile
+
+    status_dir = tempfile.mkdtemp(prefix='vsim-status-')
+    stuck_items = []
+    stuck_after = conf.get('stuck_after_s', 150)
+
     with concurrent.futures.ProcessPoolExecutor(
             max_workers=workers, mp_context=context,
             initializer=_init_worker,
-            initargs=(type(engine).__module__,)) as pool:
+            initargs=(type(engine).__module__, status_dir)) as pool:
         pending = {}
         queue = list(enumerate(chunks))
         queue.reverse()
@@ -385,6 +518,22 @@ def main(engine, argv=None):
 
             now = time.time()
 
+            # A worker that has been on one item for too long: remember the
+            # item, the run is cut short and the item is examined alone in
+            # a subprocess afterwards.
+            for name in os.listdir(status_dir):
+                try:
+                    with open(os.path.join(status_dir, name)) as fin:
+                        entry = json.load(fin)
+                except (OSError, ValueError):
+                    continue
+
+                if now - entry['since'] > stuck_after:
+                    stuck_items.append(entry['item'])
+
+            if stuck_items:
+                break
+
             for future, (index, chunk, since) in list(pending.items()):
                 if now - since > item_timeout and not future.done():
                     harness.append('chunk {} timed out after {} s: {}'.format(
@@ -398,7 +547,10 @@ def main(engine, argv=None):
 
         skipped = sum(len(chunk) for _, chunk in queue)
 
-        if harness:
+        if stuck_items:
+            skipped += sum(len(chunk) for _, chunk, _ in pending.values())
+
+        if harness or stuck_items:
             for process in list(getattr(pool, '_processes', {}).values()):
                 try:
                     process.kill()
@@ -424,11 +576,30 @@ def main(engine, argv=None):
         with open(args.log_hashes, 'w') as fout:
             json.dump(log_hashes, fout)
 
+    import shutil
+
+    shutil.rmtree(status_dir, ignore_errors=True)
+
     if harness:
         for line in harness[:5]:
             print('HARNESS: ' + line, flush=True)
 
         return 2
+
+    wall_hangs = []
+
+    for item in stuck_items[:3]:
+        violation = confirm_wall_hang(engine, item,
+                                      conf.get('hang_confirm_s', 120))
+
+        if violation is None:
+            print('HARNESS: item {} kept a worker busy for more than {} s '
+                  'but finished when run alone'.format(
+                      json.dumps(item)[:200], stuck_after), flush=True)
+
+            return 2
+
+        wall_hangs.append(violation)
 
     # -- violations ----------------------------------------------------------
     findings = load_known_findings(engine.property_id)
@@ -496,6 +667,16 @@ def main(engine, argv=None):
 
             if status == 0:
                 status = 2
+
+    for violation in wall_hangs:
+        path = write_replay(engine, violation, 'v')
+        print('VIOLATION property={} replay={}'.format(
+            engine.property_id, path), flush=True)
+        print('  class={} detail={}'.format(
+            violation['class'], json.dumps(violation['detail'])[:600]),
+            flush=True)
+        reported.append(path)
+        status = 1
 
     for finding, count in known_printed.values():
         print('KNOWN-FINDING: property={} {} (id={}, {} occurrence(s) in '
